@@ -312,17 +312,43 @@ func behaviouralTypes(quick bool) (fine, lean, res []*ty, bound string) {
 		return
 	}
 	all7 := leavesOf("i8", "i16", "i32", "i64", "i128", "bool", "str")
+	two := leavesOf("i8", "i64")
+	// depth 1 complete (structs of 1-3 fields, [2]T, [3]T, T?) over seven leaves
 	d1 := depth1(all7, 3)
-	d1n := depth1(all6, 2)
-	d2 := wrap(d1n, sib, 2)
-	d2 = append(d2, oneCompositeK(depth1(sib, 2), sib, 3)...)
-	d2 = append(d2, wrap(depth1(leavesOf("i128"), 2), leavesOf("i8", "i128"), 2)...)
-	d3 := wrap(wrap(depth1(leavesOf("i8", "i64"), 2), leavesOf("i8", "i64"), 2), leavesOf("i8", "i64"), 2)
-	fine = depth1(sib, 2)
-	fine = append(fine, wrap(depth1(leavesOf("i8", "i64"), 2), leavesOf("i8", "i64"), 2)...)
-	lean = append(append(append(lean, d1...), d2...), d3...)
-	res = append(results(nil, all7), results(d1n, sib)...)
-	bound = fmt.Sprintf("behavioural: depth1 complete over {i8,i16,i32,i64,i128,bool,str}, structs 1-3 fields: %d; depth2 = one composite child from depth1 over six leaves with structs<=2 fields (%d), siblings {i8,i64,str}, structs<=2 fields, plus 3-field structs over the {i8,i64,str} children, plus the i128 family: %d; depth3 over leaves {i8,i64}, structs<=2 fields: %d; fine-grained case set on %d types; results %d", len(d1), len(d1n), len(d2), len(d3), len(fine), len(res))
+	// depth 2: children = depth 1 over {i8,i64,str} with structs of 1-2 fields; constructors
+	// [2]C, [3]C, C?, {C}, {C,s}, {s,C} for s in {i8,i64}; plus the same over the i128 children
+	// with s = i8
+	ch := depth1(sib, 2)
+	d2 := wrap(ch, two, 2)
+	d2 = append(d2, wrap(depth1(leavesOf("i128"), 2), leavesOf("i8"), 2)...)
+	// depth 3: [2]D, D?, {D}, {D,i8} over the quick tier's depth 2
+	chq := structsOver(two, 2)
+	for _, l := range two {
+		chq = append(chq, tArr(2, l))
+	}
+	for _, l := range two {
+		chq = append(chq, tOpt(l))
+	}
+	var d2q []*ty
+	for _, c := range chq {
+		d2q = append(d2q, tArr(2, c))
+		if c.k != kOpt {
+			d2q = append(d2q, tOpt(c))
+		}
+	}
+	d2q = append(d2q, oneComposite(chq, leavesOf("i8"), 2)...)
+	var d3 []*ty
+	for _, c := range d2q {
+		d3 = append(d3, tArr(2, c), tStruct(c), tStruct(c, tLeaf("i8")))
+		if c.k != kOpt {
+			d3 = append(d3, tOpt(c))
+		}
+	}
+	fine = depth1(two, 2)
+	fine = append(fine, tStruct(tStruct(two[0], two[1]), two[0]), tArr(2, tStruct(two[0], two[1])), tStruct(tOpt(two[1]), two[0]), tOpt(tStruct(two[0], two[1])))
+	lean = append(append(append(append(lean, d1...), d2...), d2q...), d3...)
+	res = append(results(nil, all7), results(ch, two)...)
+	bound = fmt.Sprintf("behavioural (thorough): depth1 complete over {i8,i16,i32,i64,i128,bool,str}, structs 1-3 fields: %d; depth2 = [2]C, [3]C, C?, {C}, {C,s}, {s,C}, s in {i8,i64}, C in the depth1 over {i8,i64,str} with structs<=2 fields (%d children), the same over the i128 children with s=i8, and the quick tier's depth2: %d; depth3 = [2]D, D?, {D}, {D,i8} over the quick tier's depth2 (%d): %d; fine-grained case set on %d types; results: leaf x leaf over seven leaves and C ! s, s ! C: %d", len(d1), len(ch), len(d2)+len(d2q), len(d2q), len(d3), len(fine), len(res))
 	return
 }
 
@@ -351,7 +377,7 @@ func oneCompositeK(comps, leaves []*ty, k int) []*ty {
 func Run(c *vl.Ctx) {
 	quick := c.Quick()
 	if quick {
-		c.SetBudget(105 * time.Second)
+		c.SetBudget(112 * time.Second)
 	} else {
 		c.SetBudget(17 * time.Minute)
 	}
